@@ -19,6 +19,9 @@ def _lf(x):
     """lift Python/NumPy floats to exact Sym constants; leave the rest"""
     if isinstance(x, Sym):
         return x
+    if isinstance(x, (complex, _np.complexfloating)):
+        from .csym import CSym
+        return CSym(float(x.real), float(x.imag))
     if isinstance(x, (float, _np.floating)):
         return realconst(float(x))
     if isinstance(x, Fraction):
@@ -31,8 +34,8 @@ def _lf(x):
 
 
 def _S(x):
-    """any scalar -> Sym"""
-    if isinstance(x, Sym):
+    """any scalar -> Sym (complex symbolic scalars pass through: they implement the same method names)"""
+    if isinstance(x, Sym) or getattr(x, '_pyvc_complex', False):
         return x
     t = lift(x)
     if t is None:
@@ -284,7 +287,11 @@ class SymArray(_np.ndarray):
     def __getitem__(self, key):
         key = _fix_key(key)
         if _key_has_symmask(key):
-            raise LeftFragment('read through a symbolic boolean mask changes the shape')
+            # a[mask] with a symbolic mask changes the shape; only the read-modify-write idiom  a[mask] op= v  is modelled:
+            # the read yields a full-size placeholder that the following masked store turns into ite(mask, value, old)
+            if isinstance(key, tuple):
+                raise LeftFragment('symbolic mask inside a tuple index')
+            return _MaskRead(_np.array(self.view(_np.ndarray), dtype=object, copy=True), key)
         r = _np.ndarray.__getitem__(self, key)
         return r
 
@@ -346,6 +353,17 @@ class SymArray(_np.ndarray):
             raise IndexError('boolean index did not match indexed array')
         if self.dtype != object:
             raise LeftFragment('symbolic mask on a native array')
+        if isinstance(value, _MaskRead):
+            base = self.view(_np.ndarray)
+            for idx in _np.ndindex(mask.shape):
+                mt = _S(mask[idx])._b()
+                if self.ndim > mask.ndim:
+                    cur = base[idx]
+                    for j in _np.ndindex(self.shape[mask.ndim:]):
+                        cur[j] = select(mt, value.full[idx + j], cur[j])
+                else:
+                    base[idx] = select(mt, value.full[idx], base[idx])
+            return
         value = _lift_value(value)
         varr = _np.asarray(value, dtype=object) if not isinstance(value, _np.ndarray) else value
         trailing = self.shape[mask.ndim:]
@@ -1218,6 +1236,30 @@ def _wrap_light(r):
     if isinstance(r, _np.floating):
         return _lf(r)
     return r
+
+
+class _MaskRead(object):
+    """result of a[mask] with a symbolic mask inside the idiom  a[mask] op= v : holds full-size values"""
+
+    def __init__(self, full, mask):
+        self.full = full
+        self.mask = mask
+
+    def _op(self, other, f):
+        o = other.full if isinstance(other, _MaskRead) else other
+        return _MaskRead(_np.asarray(f(self.full.view(SymArray), o), dtype=object), self.mask)
+
+    def __add__(self, o): return self._op(o, lambda a, b: a + b)
+    def __radd__(self, o): return self._op(o, lambda a, b: b + a)
+    def __sub__(self, o): return self._op(o, lambda a, b: a - b)
+    def __rsub__(self, o): return self._op(o, lambda a, b: b - a)
+    def __mul__(self, o): return self._op(o, lambda a, b: a * b)
+    def __rmul__(self, o): return self._op(o, lambda a, b: b * a)
+    def __truediv__(self, o): return self._op(o, lambda a, b: a / b)
+    __iadd__ = __add__
+    __isub__ = __sub__
+    __imul__ = __mul__
+    __itruediv__ = __truediv__
 
 
 def select(g, a, b):
